@@ -460,7 +460,16 @@ func (m *Machine) narrowTaint(regs map[expr.Key]bool, preX [32]uint64) bool {
 	return false
 }
 
-func (m *Machine) compareState(name string, pc uint64) *Diff {
+func (m *Machine) compareState(name string, pc uint64) (d *Diff) {
+	// reading the emulator's state back goes through the real register map and memories
+	p, stack := eng.Catch(func() { d = m.compareState1(name, pc) })
+	if p != nil {
+		return &Diff{Class: "panic " + eng.PanicSite(stack), What: fmt.Sprintf("reading the state back after %s at %#x panics: %v", name, pc, p)}
+	}
+	return d
+}
+
+func (m *Machine) compareState1(name string, pc uint64) *Diff {
 	var ip uint64
 	p, stack := eng.Catch(func() { ip = uint64(m.Emu.MustIP()) })
 	if p != nil {
